@@ -1,4 +1,5 @@
 import DEngine.Model.Memb
+import DEngine.Props.C09
 /-!
 # C26 — Membership changes never allow two disjoint quorums
 
@@ -18,6 +19,11 @@ effect on a node when *that node* applies it) tied to the real code by the `memb
   promotion of two learners into an odd voter set opens such a window.
 * `quorums_intersect_partial` — the statement for every pair of nodes whose applied configurations
   differ by at most one voter.
+* `propose_keeps_config_in_force`, `inflight_commit_by_config_in_force` — a promotion *in flight* does
+  not change the voters the leader counts: the cached configuration follows the membership, which
+  changes only when the entry is applied, so the BatchPromote entry itself (and everything behind it)
+  is committed by a majority of the configuration in force before it — acknowledgements of the
+  learners being promoted do not count.
 -/
 namespace DEngine.C26
 open DEngine.Memb
@@ -249,5 +255,68 @@ theorem canDisjoint_sound (a b : List Nat) (ha : a.Nodup) (hb : b.Nodup) (h : ca
 example : canDisjoint [1, 2, 3] [3, 4, 5, 1, 2] = true ∧
     IsMajority (fun x => x == 1 || x == 2) [1, 2, 3] ∧ IsMajority (fun x => x == 3 || x == 4 || x == 5) [3, 4, 5, 1, 2] := by
   unfold IsMajority; decide
+
+/-! ### a promotion in flight: the commit quorum is the configuration in force -/
+open DEngine.Commit in
+/-- Proposing a batch promotion leaves the leader's cached configuration (and its match indexes,
+    commit index, membership) untouched: only the log grows. -/
+theorem propose_keeps_config_in_force (s : PqSt) (pending : List Nat) (out : PqSt × List String × String)
+    (h : pqStep s (.promote pending) = some out) :
+    out.1.leader.targets = s.leader.targets ∧ out.1.leader.totalVoters = s.leader.totalVoters ∧
+    out.1.leader.singleVoter = s.leader.singleVoter ∧ out.1.leader.view = s.leader.view ∧
+    out.1.leader.commit = s.leader.commit ∧ out.1.leader.matchIdx = s.leader.matchIdx := by
+  simp only [pqStep] at h
+  split at h
+  · injection h with h; subst h; simp
+  · split at h
+    · injection h with h; subst h; simp
+    · injection h with h; subst h; simp
+
+open DEngine.Commit in
+/-- Whatever is in flight, an acknowledgement moves the commit index only to an index held by a
+    strict majority of the voters of the cached configuration — which `propose_keeps_config_in_force`
+    shows is still the configuration applied before the entry. -/
+theorem inflight_commit_by_config_in_force (s : PqSt) (p t m : Nat) (out : PqSt × List String × String)
+    (h : pqStep s (.ack p t m) = some out) (hmove : out.1.leader.commit ≠ s.leader.commit) :
+    out.1.leader.targets = s.leader.targets ∧
+    (voterPeers s.leader.targets).length + 1 <
+      2 * holders out.1.leader.commit (voterPeers s.leader.targets) out.1.leader.matchIdx := by
+  simp only [pqStep] at h
+  injection h with h; subst h
+  simp only at hmove ⊢
+  have hj := C09.ack_commit_justified s.leader p t (.success m) hmove
+  have ht : (handleAppendResult s.leader p t (.success m)).1.targets = s.leader.targets := by
+    unfold handleAppendResult
+    split
+    · rfl
+    · split
+      · rfl
+      · simp only [afterUpdate]
+        have hf := C09.updatePeerIndex_fields s.leader p { matchIndex := some m, nextIndex := m + 1, success := true }
+        have hl := C09.learnerCheck_fields (updatePeerIndex s.leader p { matchIndex := some m, nextIndex := m + 1, success := true })
+        simp only at hf
+        split <;> (try split) <;> simp only [] <;> (first | (split <;> simp [hl.2.2.2.2.2, hf.2.2.2.2.1]) | simp [hl.2.2.2.2.2, hf.2.2.2.2.1])
+  refine ⟨ht, ?_⟩
+  have := hj.1
+  rw [ht] at this
+  exact this
+
+open DEngine.Commit in
+/-- … and an acknowledgement of a learner whose promotion is still in flight (proposed, not applied)
+    moves nothing: it is not a voter of the configuration in force. -/
+theorem inflight_learner_ack_never_commits (s : PqSt) (pending : List Nat) (a : PqSt × List String × String)
+    (ha : pqStep s (.promote pending) = some a) (p t m : Nat) (hp : isVoterTarget s.leader.targets p = false)
+    (b : PqSt × List String × String) (hb : pqStep a.1 (.ack p t m) = some b) :
+    b.1.leader.commit = s.leader.commit := by
+  have hk := propose_keeps_config_in_force s pending a ha
+  simp only [pqStep] at hb
+  injection hb with hb; subst hb
+  simp only
+  rw [C09.learner_ack_never_commits a.1.leader p t (.success m) (by rw [hk.1]; exact hp), hk.2.2.2.2.1]
+
+open DEngine.Commit in
+/-- non-vacuity (the seeded scenario): voters {1,2,3}, learners 4, 5; 4 is not a voter of the cache -/
+example : isVoterTarget (initLeader 1 0 1 [1] [⟨1, 1, 3⟩, ⟨2, 1, 3⟩, ⟨3, 1, 3⟩, ⟨4, 4, 1⟩, ⟨5, 4, 1⟩]).targets 4 = false ∧
+    voterPeers (initLeader 1 0 1 [1] [⟨1, 1, 3⟩, ⟨2, 1, 3⟩, ⟨3, 1, 3⟩, ⟨4, 4, 1⟩, ⟨5, 4, 1⟩]).targets = [2, 3] := by decide
 
 end DEngine.C26
